@@ -30,7 +30,7 @@ from vlib.stubs import _is_tracing, realize_value, silence_logging
 
 STUBS = silence_logging()
 _COUNTER = [0]
-METHOD_KINDS = ["plain", "staticmethod", "classmethod", "property", "functools.cached_property", "async", "functools.cache"]
+METHOD_KINDS = ["plain", "staticmethod", "classmethod", "property", "functools.cached_property", "async", "functools.cache", "async classmethod", "async staticmethod"]
 CHILD_BASES = ["none", "Base", "imported", "two"]
 IMPORT_FORMS = ["from PKG.a import", "from .a import", "import PKG.a as aa", "from PKG import a", "from . import a"]
 
@@ -47,14 +47,15 @@ def _package(npo, na, nd, nk, kmask, vararg, kwarg, mkind, docs, child_base, imp
     d_mod, d_fn, d_cls, d_meth = [bool((docs >> i) & 1) for i in range(4)]
     mk = METHOD_KINDS[mkind]
     deco = {"plain": "", "async": "", "staticmethod": "    @staticmethod\n", "classmethod": "    @classmethod\n", "property": "    @property\n",
-            "functools.cached_property": "    @functools.cached_property\n", "functools.cache": "    @functools.cache\n"}[mk]
-    first = {"staticmethod": "", "classmethod": "cls"}.get(mk, "self")
+            "functools.cached_property": "    @functools.cached_property\n", "functools.cache": "    @functools.cache\n",
+            "async classmethod": "    @classmethod\n", "async staticmethod": "    @staticmethod\n"}[mk]
+    first = {"staticmethod": "", "classmethod": "cls", "async classmethod": "cls", "async staticmethod": ""}.get(mk, "self")
     extra = "" if mk in ("property", "functools.cached_property") else ", x, y=0"
     mparams = (first + extra).lstrip(", ")
     a = ('"""Module a."""\n' if d_mod else "") + "import functools\n\nCONST = 1\n\n\n"
     a += f"def f{params}:\n" + ('    """F doc."""\n' if d_fn else "    pass\n") + "\n\n"
     a += "class Base:\n" + ('    """Base doc."""\n' if d_cls else "") + "    attr = 0\n\n    def __init__(self, v=None):\n        self.inst = v\n\n"
-    a += deco + ("    async def " if mk == "async" else "    def ") + f"m({mparams}):\n" + ('        """M doc."""\n' if d_meth else "        return None\n")
+    a += deco + ("    async def " if mk.startswith("async") else "    def ") + f"m({mparams}):\n" + ('        """M doc."""\n' if d_meth else "        return None\n")
     if nested:
         a += "\n    class Inner:\n" + ('        """Inner doc."""\n' if d_cls else "") + "        def im(self, q):\n            return q\n"
     b = ('"""Module b."""\n' if d_mod else "")
@@ -71,7 +72,8 @@ def _package(npo, na, nd, nk, kmask, vararg, kwarg, mkind, docs, child_base, imp
     b += "\n\nclass Other:\n    def o(self):\n        return 0\n\n\n"
     bases = {"none": "", "Base": f"({base_ref})", "imported": f"({base_ref})", "two": f"({base_ref}, Other)"}[CHILD_BASES[child_base]]
     b += f"class Child{bases}:\n" + ('    """Child doc."""\n' if d_cls else "") + "    def extra(self, z=1):\n        return z\n"
-    init = ('"""Top."""\n' if d_mod else "") + "from PKG.b import Child\n"
+    # the package also binds its direct submodules under other names (both import spellings)
+    init = ('"""Top."""\n' if d_mod else "") + "from PKG.b import Child\nfrom PKG import a as h\nimport PKG.b as s\n"
     return {"__init__.py": init, "a.py": a, "b.py": b}, spec
 
 
@@ -180,7 +182,7 @@ def _pre(mkind, child_base, import_form, sig, docs, nested):
     pre=_pre,
     drives=[Visitor.visit_functiondef, Visitor.visit_classdef, Visitor.handle_function, Inspector.inspect_module, Inspector.inspect_class, Inspector.handle_function, Inspector.handle_attribute, Inspector.generic_inspect,
             _convert_parameter, prop(ObjectNode, "kind"), prop(ObjectNode, "alias_target_path")],
-    bounds={"package": "PKG/{__init__.py: from PKG.b import Child; a.py: CONST, f(<signature>), class Base{attr, __init__ (instance attribute), m (<method kind>), optional nested class Inner}; b.py: <import form> + class Other + class Child(<bases>)}",
+    bounds={"package": "PKG/{__init__.py: from PKG.b import Child; from PKG import a as h; import PKG.b as s; a.py: CONST, f(<signature>), class Base{attr, __init__ (instance attribute), m (<method kind>), optional nested class Inner}; b.py: <import form> + class Other + class Child(<bases>)}",
             "signature of f": f"{len(SIG_SHAPES)} shapes: positional-only 0..1, positional-or-keyword 0..{tiered(1, 2)}, defaults 0..all, keyword-only 0..{tiered(1, 2)} with every default mask, *args / **kwargs",
             "method kind": METHOD_KINDS, "bases of Child": CHILD_BASES, "import form in b": IMPORT_FORMS, "docstrings": "16 presence patterns (module, function, class, method)", "nested class": "present or not"},
     value_symbolic=["sig: index of the signature shape", "docs: docstring presence bits", "nested"], selectors=["method kind, bases of Child, import form (driver-bound)"],
